@@ -37,10 +37,7 @@ func (c *sortSliceChecker) VisitExpr(expr ast.Expr) {
 	if len(call.Args) != 2 {
 		return
 	}
-	switch qualifiedName(call.Fun) {
-	case "sort.Slice", "sort.SliceStable":
-		// OK.
-	default:
+	if !isPkgFunc(c.ctx.TypesInfo, call.Fun, "sort", "Slice") && !isPkgFunc(c.ctx.TypesInfo, call.Fun, "sort", "SliceStable") {
 		return
 	}
 
